@@ -270,6 +270,15 @@ func runC08(rc *RunCtx) {
 		}
 		sc.Then = follow
 	}
+	if follow == nil && sc.Fault == FOversize && sc.Endless && rc.Scen.Chance(1, 2) {
+		// the flood goes on, and the application tries again on the same client
+		c := *sc
+		c.Then = nil
+		c.KeepStale = true
+		c.Chunks = []Chunk{{N: len(c.Reply)}}
+		follow = &c
+		sc.Then = follow
+	}
 	out := RunC1(rc, sc)
 	rc.Desc = sc.describe()
 	rc.Nontrivial = true
@@ -278,7 +287,7 @@ func runC08(rc *RunCtx) {
 		rc.Probe("followup_call_after_timeout")
 		base := fmt.Sprintf("client=%s|fault=%s|followup", sc.Kind, sc.Fault)
 		if len(out.Next) == 0 || !out.Next[0].Returned {
-			rc.Violate("hang", base, "the call after a timed-out call on the same client did not return (hang=%v)", out.Hang)
+			rc.Violate("hang", base, "the call after the faulted call on the same client did not return (hang=%v)", out.Hang)
 			return
 		}
 		o := out.Next[0]
@@ -291,6 +300,9 @@ func runC08(rc *RunCtx) {
 		}
 		if follow.Fault == FStall {
 			checkC08(rc, follow, o) // the same obligations as for the first call
+		}
+		if follow.Fault == FOversize && o.Err == nil {
+			rc.Violate("success_under_fault", base+"|flood_goes_on", "the call made while the flood was still going on reported success (%T)", o.Resp)
 		}
 	}
 }
